@@ -155,10 +155,17 @@ def judge_obs(sheet, settings, ob, extra_names=()):
     return out
 
 
-def judge_sheet(spec, settings, passthrough=()):
+def judge_sheet(spec, settings, passthrough=(), name="s.css"):
     sheet = G.Sheet(spec, passthrough)
-    ob = O.run_sheet(sheet.text, settings)
-    return judge_obs(sheet, settings, ob)
+    ob = O.run_sheet(sheet.text, settings, name=name)
+    vs = judge_obs(sheet, settings, ob)
+    for v in vs:
+        v["case"]["name"] = name
+    return vs
+
+
+# input file names for the single-file invocation: the output must be the sibling <stem>_cm.css whatever the stem is
+NAMES = ["s.css", "theme_cm.css", "_cm.css", "x.min.css", "a b.css", "cm.css", "s_cm_cm.css"]
 
 
 def judge_dir(specs, settings):
@@ -203,7 +210,7 @@ def judge_case(case):
         return judge_dir([[tuple(x) for x in sp] for sp in case["specs"]], tuple(case["settings"]))
     spec = [tuple(x) for x in case["spec"]["items"]]
     pt = [tuple(x) for x in case["spec"].get("passthrough", [])]
-    return judge_sheet(spec, tuple(case["settings"]), pt)
+    return judge_sheet(spec, tuple(case["settings"]), pt, case.get("name", "s.css"))
 
 
 def chunk(job):
@@ -217,6 +224,11 @@ def chunk(job):
         if vs and len(out) < 8:
             out += vs
     return n, out
+
+
+def chunk_names(job):
+    spec, name, st = job
+    return 1, judge_sheet(spec, st, (), name)
 
 
 def chunk_dir(job):
@@ -279,12 +291,20 @@ def run(ctx):
     )
     J = jobs(ctx)
     n = 0
-    for cnt, vs in ctx.pmap(chunk, J, chunksize=4):
+    for cnt, vs in ctx.pmap_forked(chunk, J, chunksize=4):
         n += cnt
         ctx.add_violations(vs)
     ctx.sub("single_file_runs", states=n, transitions=n, evaluations=n, traces=n, distinct_nontrivial=n, exhaustive=True, distinct_sheets=len(J))
     s = G.Sheet([("var_t", "none"), ("lit_own_bg", "none")], [(0, PT["strings"]), (1, PT["fontface"])])
     ctx.sample({"subcheck": "sheet", "css": s.text, "settings": [1, False, None]})
+    nj = [(spec, nm, st) for nm in NAMES for spec in ([("lit_fail", "none")], [("var_t", "none"), ("readable", "none")], [("readable", "none")], [("unfixable", "none")])
+          for st in ((1, False, None), (2, True, "#1e1e1e"))]
+    k = 0
+    for cnt, vs in ctx.pmap_forked(chunk_names, nj, chunksize=2):
+        k += cnt
+        ctx.add_violations(vs)
+    ctx.sub("input_file_names", states=k, transitions=k, evaluations=k, traces=k, distinct_nontrivial=k, exhaustive=True, names=NAMES)
+    ctx.sample({"subcheck": "name", "file": "theme_cm.css", "invocation": "cm-colors path/to/theme_cm.css"})
     dj = []
     base = [[("lit_fail", "none")], [("var_t", "none"), ("readable", "none")], [("unfixable", "none")], [("root_literal", "none")], [("bg_only", "none")]]
     for a, b in itertools.permutations(base, 2):
@@ -293,7 +313,7 @@ def run(ctx):
         if not ctx.quick or tr[0] == base[0]:
             dj.append((list(tr), (2, True, None)))
     m = 0
-    for cnt, vs in ctx.pmap(chunk_dir, dj, chunksize=2):
+    for cnt, vs in ctx.pmap_forked(chunk_dir, dj, chunksize=2):
         m += cnt
         ctx.add_violations(vs)
     ctx.sub("directory_runs", states=m, transitions=m, evaluations=m, traces=m, distinct_nontrivial=m, exhaustive=True)
